@@ -32,7 +32,7 @@ ASSUMPTIONS = [
 FLOORS = {"quick": {"evaluations": 8000, "verdicts_checked": 7000, "refused_and_silent": 5000,
                     "accepted": 120, "distinct": 1500},
           "thorough": {"evaluations": 150000, "verdicts_checked": 120000,
-                       "refused_and_silent": 90000, "accepted": 3000, "distinct": 10000}}
+                       "refused_and_silent": 90000, "accepted": 600, "distinct": 10000}}
 
 ABSENT = "<absent>"
 VALUES = [ABSENT, None, True, False, 0, 1, -1, 5, 2**32 - 1, 2**32, 2**64 - 1, 2**64, 10**30,
@@ -310,7 +310,7 @@ def gen_requests(spec):
             if k % n == sh:
                 yield v1, base, "struct:" + label, r
         # random multi-deviations
-        nrand = (6000 if spec["tier"] == "quick" else 120000)
+        nrand = (6000 if spec["tier"] == "quick" else 600000)
         names = list(b)
         for _ in range(nrand):
             k += 1
